@@ -138,7 +138,7 @@ PROPS["C08"] = dict(
     trusted_base=_CTL_TB, assumptions=_CTL_ASSUME,
     level_text="Kernel-checked (Props/C08.lean): every datagram caused by a request goes to the requester with its sequence number (invariant over all histories); "
                "Modification/Deletion Responses carry the session's CP SEID or SEID 0 + cause 65; misses and unanswered requests leave no trace; the Establishment "
-               "Response's F-SEID resolves to the new session. Tie: S-ctl, datagrams decoded by the harness. hb_answered, assoc_answered — a first copy of a Heartbeat Request, and of an Association Setup Request naming its node, is always answered (to the sender, its sequence number), whatever the node's history and whatever the data plane answers while its old sessions are withdrawn.",
+               "Response's F-SEID resolves to the new session. Tie: S-ctl, datagrams decoded by the harness. hb_answered, assoc_answered — a first copy of a Heartbeat Request, and of an Association Setup Request naming its node, is always answered (to the sender, its sequence number), whatever the node's history and whatever the data plane answers while its old sessions are withdrawn. est_created_exact — an accepted establishment is answered with the new session's F-SEID, cause accepted and exactly one Created PDR IE per PDR of the request that carries a UE IP address (its id and that address, in request order); the ctl stream builds Create PDRs with the PDR ID first or last and compares the Created PDR IEs with the request on the specification side.",
     level_note="Trusted: as C01. The recovery time stamp is compared for equality across all responses of a run by the harness (ts=same); that the field is written "
                "once is a source fact, not a theorem.",
 )
